@@ -27,6 +27,7 @@ type c12Spec struct {
 	ID      string
 	Backend string
 	Kind    string // race | cancel-scan | start-join
+	Sleep0  bool   // cancel-scan: RetentionSleep = 0
 	When    string // start-join: cancel "at-once" | "after-scan-began"
 	Corrupt bool   // start-join: a mailbox index is unreadable, so every scan fails
 	Bound   [2]int
@@ -39,6 +40,11 @@ func c12Specs() []c12Spec {
 		{ID: "R2-file-scan-cancel", Backend: "file", Kind: "cancel-scan", Bound: [2]int{2, 3}},
 		{ID: "R2b-mem-scan-cancel-after-2nd-callback", Backend: "mem", Kind: "cancel-scan", When: "after-2", Bound: [2]int{2, 3}},
 		{ID: "R2b-file-scan-cancel-after-2nd-callback", Backend: "file", Kind: "cancel-scan", When: "after-2", Bound: [2]int{2, 3}},
+		// no pause between mailboxes configured: the context and the zero timer are then both ready
+		// at every pause, and which one the select takes is the runtime's choice - an explicit choice
+		// point here, so that both continuations are explored.  Continuing is legitimate in any one
+		// execution; that stopping was on offer at the pauses after the request is what is checked.
+		{ID: "R2c-mem-scan-cancel-no-pause-configured", Backend: "mem", Kind: "cancel-scan", Sleep0: true, Bound: [2]int{2, 3}},
 		{ID: "R3-mem-start-join-cancel-at-once", Backend: "mem", Kind: "start-join", When: "at-once", Bound: [2]int{2, 3}},
 		{ID: "R3-file-start-join-cancel-after-scan-began", Backend: "file", Kind: "start-join", When: "after-scan-began", Bound: [2]int{2, 3}},
 		{ID: "R4-file-failing-scan-start-join", Backend: "file", Kind: "start-join", When: "after-scan-began", Corrupt: true, Bound: [2]int{2, 3}},
@@ -179,7 +185,11 @@ func c12SchedScenario(c *fw.Ctx, sp c12Spec) schedScenario {
 						add("e4", "boxd", 2*time.Hour)
 					}
 					var cancelStep int64 = -1
-					rs := storage.NewRetentionScanner(config.Storage{RetentionPeriod: time.Hour, RetentionSleep: 50 * time.Millisecond}, vl)
+					pause := 50 * time.Millisecond
+					if sp.Sleep0 {
+						pause = 0
+					}
+					rs := storage.NewRetentionScanner(config.Storage{RetentionPeriod: time.Hour, RetentionSleep: pause}, vl)
 					var scanErr error
 					ths := []vsched.Thread{
 						{Name: "scanner", F: func() { scanErr = rs.DoScan(ctx) }},
@@ -202,7 +212,19 @@ func c12SchedScenario(c *fw.Ctx, sp c12Spec) schedScenario {
 								after++
 							}
 						}
-						if after > 1 {
+						if sp.Sleep0 {
+							// which of two ready cases a select takes is the runtime's choice: continuing is
+							// legitimate in any one execution.  What must hold is that stopping was on offer:
+							// the scan went on after the request only through selects that had more than one
+							// ready case (the context being one of them).
+							offered := 0
+							if x := vsched.Cur(); x != nil {
+								offered = len(x.SelReady)
+							}
+							if after > 1 && offered == 0 {
+								addProb("scan-never-consults-the-context", fmt.Sprintf("%d mailbox callbacks started after shutdown was requested and the scan never reached a point at which it could have stopped (no pause between mailboxes configured)", after))
+							}
+						} else if after > 1 {
 							addProb("scan-continues-after-cancel", fmt.Sprintf("%d mailbox callbacks started after shutdown was requested (at most the one in progress may finish and one more may start)", after))
 						}
 						outcome = fmt.Sprintf("callbacks=%d after-cancel=%d", len(vl.callbacks), after)
